@@ -44,6 +44,9 @@ func (w *Watcher) Start(ch chan<- controller.ID) error {
 	go func() {
 		for event := range eventCh {
 			ch <- controller.NewID(event.Transaction.Index)
+			// The next transaction waits for this one to leave its initialization: it is woken by this
+			// transaction's events, not only by the pass that happened to perform the write
+			ch <- controller.NewID(event.Transaction.Index + 1)
 		}
 	}()
 	return nil
